@@ -51,7 +51,9 @@ Record query := {
   q_period : Z;                              (* 0 = table resolution *)
   q_asof : Z; q_until : Z;                   (* 0 = not given *)
   q_where : option nat;                      (* index into tp_flags: WHERE evaluated on the point's TABLE key *)
-  q_now : Z                                  (* database clock when the query is planned *)
+  q_now : Z;                                 (* database clock when the query is planned *)
+  q_vis : option nat;                        (* disk-only query: number of points (a prefix) flushed so far; None = memstore included *)
+  q_limit : option Z                         (* LIMIT n without ORDER BY: any n rows of the result *)
 }.
 
 Definition has_window (q:query) : bool := negb (q_asof q =? 0) || negb (q_until q =? 0).
@@ -149,8 +151,22 @@ Definition rows_match (expected observed:list orow) : bool :=
 Record qrun := { qr_q : query; qr_err : bool; qr_rows : list orow }.
 Record db_case := { dc_table : table; dc_points : list tpoint; dc_runs : list qrun }.
 
+Definition visible (q:query) (pts:list tpoint) : list tpoint :=
+  match q_vis q with None => pts | Some n => firstn n pts end.
+(* LIMIT n (unordered): any n distinct rows of the full result, never more *)
+Fixpoint distinct_rows (rows:list orow) : bool :=
+  match rows with [] => true | r :: rest => match find_row (o_ts r) (o_key r) rest with Some _ => false | None => distinct_rows rest end end.
+Definition rows_any (n:Z) (expected observed:list orow) : bool :=
+  (Z.of_nat (length observed) =? Z.min (Z.max 0 n) (Z.of_nat (length expected)))
+  && distinct_rows observed
+  && forallb (fun o => match find_row (o_ts o) (o_key o) expected with
+                       | Some e => vals_close (o_vals e) (o_vals o) | None => false end) observed.
 Definition qrun_ok (T:table) (pts:list tpoint) (r:qrun) : bool :=
   if plan_error T (qr_q r) then qr_err r
-  else negb (qr_err r) && rows_match (spec_rows T (qr_q r) pts) (qr_rows r).
+  else negb (qr_err r) &&
+       match q_limit (qr_q r) with
+       | None => rows_match (spec_rows T (qr_q r) (visible (qr_q r) pts)) (qr_rows r)
+       | Some n => rows_any n (spec_rows T (qr_q r) (visible (qr_q r) pts)) (qr_rows r)
+       end.
 Definition db_case_ok (c:db_case) : bool := forallb (qrun_ok (dc_table c) (dc_points c)) (dc_runs c).
 Definition db_mismatches (cs:list db_case) : list Z := failing (map db_case_ok cs).
